@@ -316,6 +316,10 @@ var ErrUnreachable = errors.New("fakecluster: broker unreachable")
 
 // Dial has the signature of kafka.Transport.Dial.
 func (c *Cluster) Dial(ctx context.Context, network, addr string) (net.Conn, error) {
+	// like a real dialer: the address has to be host:port, an IPv6 literal host in brackets
+	if _, _, err := net.SplitHostPort(addr); err != nil {
+		return nil, fmt.Errorf("%w: %v", ErrUnreachable, err)
+	}
 	c.mu.Lock()
 	var br *Broker
 	for _, b := range c.Brokers {
@@ -408,6 +412,12 @@ func (c *Cluster) serve(broker int32, cid int, addr string, conn net.Conn) {
 		res := c.handle(broker, ver, msg)
 		c.mu.Unlock()
 		if res == nil {
+			continue
+		}
+		if body := rawResponse(ver, res); body != nil { // offset APIs: encoded by hand from the protocol guide
+			if err := writeRawResponse(conn, corr, body); err != nil {
+				return
+			}
 			continue
 		}
 		if err := protocol.WriteResponse(conn, ver, corr, res); err != nil {
@@ -604,6 +614,9 @@ func (c *Cluster) handle(broker int32, ver int16, msg protocol.Message) protocol
 				rt.Partitions = append(rt.Partitions, rp)
 			}
 			res.Topics = append(res.Topics, rt)
+		}
+		if ver >= 2 && res.ErrorCode != 0 { // like Kafka: from v2 on a group-level failure is the top-level code, no partitions
+			res.Topics = nil
 		}
 		return res
 
